@@ -171,8 +171,8 @@ def replay_states(states, seed, kind):
             n += 1
             if exp['err']:
                 nontriv += 1
-                if kind == 'merchants' and layout and len(corrupt) < 6 and rnd.random() < 0.05:
-                    corrupt.append((','.join(classify(file, res)) or 'corrupt', text))
+                if layout and len(corrupt) < 6 and rnd.random() < 0.05:
+                    corrupt.append((kind + ':' + (','.join(classify(file, res)) or 'corrupt'), text))
                 if not obs['err']:
                     fails.append(({'site': 'parse_' + kind, 'clause': 'accepts-corrupt-file', 'corruption': classify(file, res)},
                                   {'text': text, 'kind': kind, 'expected': exp, 'observed': obs},
@@ -210,6 +210,20 @@ CORRUPT_FILES = [
     ('csv-header-on-top', '# converted by hand\nPattern,Merchant,Category,Subcategory\n[A]\nmatch: contains("ALFA")\ncategory: Food\n'),
     ('csv-row-on-top', 'ALFA,Alfa,Food,Grocery\n[A]\nmatch: contains("ALFA")\ncategory: Food\n'),
 ]
+
+
+def cli_views_case(item):
+    """A corrupt VIEWS file: `tally up` must say so (and name the line), whatever else the settings contain."""
+    name, views, extra_settings = item
+    d = tempfile.mkdtemp(prefix='c17cliv_')
+    try:
+        cli.materialise(d, {'config/settings.yaml': extra_settings + 'year: 2025\ndata_sources:\n  - name: Card\n    file: data/card.csv\n    format: "{date:%m/%d/%Y},{description},{amount}"\nmerchants_file: config/merchants.rules\nviews_file: config/views.rules\n',
+                            'config/merchants.rules': '[A]\nmatch: contains("ALFA")\ncategory: Food\n', 'config/views.rules': views,
+                            'data/card.csv': 'Date,Description,Amount\n01/05/2025,ALFA STORE,12.50\n02/06/2025,ZULU STORE,3.00\n'})
+        up = cli.run_tally(['up', '--format', 'summary'], cwd=d)
+        return name, views, extra_settings, up
+    finally:
+        shutil.rmtree(d, ignore_errors=True)
 
 
 def cli_case(item):
@@ -262,6 +276,8 @@ def run(ck):
     rnd = random.Random(ck.seed)
     rnd.shuffle(corrupt_texts)
     picked, seen_kinds = [], set()
+    view_texts = [(n, t) for n, t in corrupt_texts if n.startswith('views:')]
+    corrupt_texts = [(n[len('merchants:'):], t) for n, t in corrupt_texts if n.startswith('merchants:')]
     for name, text in corrupt_texts:
         if name not in seen_kinds or len(picked) < (40 if quick else 400):
             seen_kinds.add(name)
@@ -281,6 +297,19 @@ def run(ck):
         if not re.search(r'[Ll]ine \d+|[Ee]rror', dout):
             ck.violation({'site': 'tally diag', 'clause': 'corrupt-rules-not-reported', 'corruption': name},
                          {'rules_text': rules, 'stdout': diag['out'][-800:]}, '`tally diag` does not report the problem in merchants.rules (%s)' % name)
+    # corrupt views files through `tally up`, with and without unrelated leftovers in settings.yaml
+    vitems = []
+    for i, (name, text) in enumerate(view_texts[:(24 if quick else 300)]):
+        vitems.append((name, text, ['', 'home_state: WA\n', 'travel_labels:\n  CA: California\n', 'rule_mode: fastest\n'][i % 4]))
+    for name, views, extra_settings, up in par.pmap(cli_views_case, vitems):
+        ck.case(n=1)
+        ck.trace(1)
+        out = up['out'] + up['err']
+        if 'Error loading views' not in out or not re.search(r'[Ll]ine \d+', out):
+            ck.violation({'site': 'tally up', 'clause': 'corrupt-views-not-reported', 'settings_extra': extra_settings.split(':')[0]},
+                         {'views_text': views, 'settings_extra': extra_settings, 'stdout': up['out'][-400:], 'stderr': up['err'][-400:], 'rc': up['rc']},
+                         '`tally up` on a corrupt views.rules (%s) does not report the error and its line' % name)
+    ck.extra['corrupt_views_files_through_cli'] = len(vitems)
     ck.extra['rule'] = ('valid base files (merchants: 2, views: 2) and every single edit of them (insert any of 24 / 11 line tokens at any position, '
                         'delete, replace, swap neighbours; two edits for views and, in the thorough tier, merchants), each rendered three times '
                         '(plain, and twice with random indentation, trailing blanks, CRLF, key case); plus `tally up` / `tally diag` on corrupt '
